@@ -222,13 +222,27 @@ public:
   explicit SeqIdGenerator(uint64_t salt) : trace_sdk::IdGenerator(false), salt_(salt) {}
   trace_api::SpanId GenerateSpanId() noexcept override
   {
-    uint64_t v;
+    uint64_t v, x;
+    uint8_t b[8];
+    if (salt_ & 2)
+    {
+      // a plain counter: the id occupies one half only (at least four leading or trailing zero bytes);
+      // distinct as long as fewer than 2^24 ids are drawn
+      uint32_t c;
+      do
+      {
+        x = salt_ + next_.fetch_add(1, std::memory_order_relaxed);
+        c = static_cast<uint32_t>(x) & 0xffffffu;  // 24 bits: bytes 3 and 7 of the id stay zero
+      } while (c == 0);
+      memset(b, 0, 8);
+      memcpy(b + ((salt_ & 4) ? 4 : 0), &c, 4);
+      return trace_api::SpanId(b);
+    }
     do
     {
-      uint64_t x = salt_ + next_.fetch_add(1, std::memory_order_relaxed);
-      v          = vf::splitmix64(x);  // a bijection of the counter: distinct and scattered
+      x = salt_ + next_.fetch_add(1, std::memory_order_relaxed);
+      v = vf::splitmix64(x);  // a bijection of the counter: distinct and scattered
     } while (v == 0);
-    uint8_t b[8];
     memcpy(b, &v, 8);
     return trace_api::SpanId(b);
   }
@@ -502,6 +516,34 @@ struct Prog
       b = static_cast<uint8_t>(r.next());
     t[0] |= 1;
     s[0] |= 1;
+    if (r.chance(1, 3))
+    {
+      // sparse ids: a single non-zero byte, or only one half of the id used (short ids of other tracing
+      // systems, counters) - valid all the same.  Byte 3 or byte 7 of a sparse span id is always non-zero, which
+      // keeps these ids apart from the ones the counter generator below hands out (bytes 3 and 7 zero).
+      C("foreign_contexts_sparse_ids");
+      unsigned char tb = static_cast<unsigned char>(r.range(1, 255)), sb = static_cast<unsigned char>(r.range(1, 255));
+      switch (r.below(3))
+      {
+        case 0:
+          memset(t, 0, 16);
+          memset(s, 0, 8);
+          t[r.below(16)]        = tb;
+          s[r.coin() ? 3 : 7] = sb;
+          break;
+        case 1:
+          memset(t, 0, 8);
+          memset(s, 0, 4);
+          t[8 + r.below(8)] |= tb;
+          s[7] |= sb;
+          break;
+        default:
+          memset(t + 8, 0, 8);
+          memset(s + 4, 0, 4);
+          t[r.below(8)] |= tb;
+          s[3] |= sb;
+      }
+    }
     if (!valid)
     {
       switch (r.below(3))
